@@ -185,8 +185,8 @@ Section Machine.
   (* writeSegment: clear the envelope's compression flag, encode the envelope into a buffer, wrap the buffer in ONE
      self-contained segment.  EncodeSegment refuses payloads above MaxPayloadLength: an envelope of more than 131071
      bytes cannot be sent in modern layout; nothing splits large envelopes.  Err = nothing is written for this frame
-     and abort = true: the client's outgoing loop then closes the connection; the server's loop (`for !c.IsClosed()`,
-     no test of abort) goes on and a later successful write overwrites abort - the frame is lost either way. *)
+     and abort = true: the outgoing loop of either end (`for !abort && !c.IsClosed()`; the server's as of /repo 36ef026)
+     stops and the connection is closed - tx_all below stops at the first Err for both roles. *)
   Definition write_segment (r : role) (st : conn) (f : F) : conn * result (list Z) :=
     match write_frame r st (fc_clear fc f) with
     | (st1, Err) => (st1, Err)
@@ -386,8 +386,20 @@ Definition raw_fc : fcodec RawFrame Header compr :=
 Definition msg_switch (v : Z) (m : Message) : bool :=
   ProtocolVersion_SupportsModernFramingLayout v &&
   match m with M_Ready | M_Authenticate _ => true | _ => false end.
+(* server.go readFrame (as of /repo 81d0138):  c.compression = primitive.Compression(strings.ToUpper(string(startup.GetCompression())))
+   go_upper = strings.ToUpper as far as it can produce one of the names "NONE" / "LZ4" / "SNAPPY": ASCII letters, and U+017F (LATIN
+   SMALL LETTER LONG S, UTF-8 C5 BF), the one non-ASCII rune whose upper case is an ASCII letter of those names (U+0131 -> I is of no
+   consequence); every other non-ASCII rune stays non-ASCII, invalid UTF-8 becomes U+FFFD: COther either way. *)
+Fixpoint go_upper (b : list Z) : list Z :=
+  match b with
+  | [] => []
+  | 197 :: 191 :: r => 83 :: go_upper r
+  | x :: r => (if (97 <=? x) && (x <=? 122) then x - 32 else x) :: go_upper r
+  end.
+Definition compr_of_option (b : list Z) : compr := compr_of_bytes (go_upper b).
+Definition compr_code (c : compr) : Z := match c with CNone => 0 | CLz4 => 1 | CSnappy => 2 | COther => 3 end.
 Definition msg_startup (m : Message) : option compr :=
-  match m with M_Startup s => Some (compr_of_bytes (startup_get_compression (st_Options s))) | _ => None end.
+  match m with M_Startup s => Some (compr_of_option (startup_get_compression (st_Options s))) | _ => None end.
 Definition frame_fc (mc : msg_codec) (lz4b snb : Frame.compressor) (fatal : Message -> bool) : fcodec Frame Header compr :=
   {| fc_enc := fun c f => encode_frame mc (body_comp lz4b snb c) f;
      fc_dec := fun c => decode_frame mc (body_comp lz4b snb c);
